@@ -255,6 +255,23 @@ func nonNilError(v ssa.Value, at ssa.Instruction, depth int) (bool, string) {
 			}
 			return true, n
 		}
+		// status.FromContextError(err).Err() with err non-nil: FromContextError maps every non-nil error to a non-OK status
+		// (Canceled, DeadlineExceeded, else Unknown)
+		if strings.HasSuffix(n, "status.Status).Err") && len(x.Call.Args) == 1 {
+			if fc, ok := stripConv(x.Call.Args[0]).(*ssa.Call); ok && calleeName(fc) == "google.golang.org/grpc/status.FromContextError" && len(fc.Call.Args) == 1 {
+				if nn, _ := nonNilError(fc.Call.Args[0], at, depth+1); nn {
+					return true, "status.FromContextError(non-nil).Err()"
+				}
+				// tested non-nil on the way
+				if at != nil {
+					for _, f := range factsAt(at) {
+						if fx, op, y, okc := cmpFact(f); okc && op == token.NEQ && isNilConst(y) && (stripConv(fx) == stripConv(fc.Call.Args[0]) || origin(fx) == origin(fc.Call.Args[0])) {
+							return true, "status.FromContextError(err).Err() under err != nil"
+						}
+					}
+				}
+			}
+		}
 		return false, "result of " + n
 	case *ssa.UnOp:
 		if x.Op == token.MUL {
